@@ -3,6 +3,11 @@
 import json, os
 V = "/verif"
 CHECKS = {
+ "C11": dict(cat="exploration",
+   text="engines built through RSPBuilder from generated RSP-QL text with 2-3 windows on distinct streams, per-window blocks over a shared vocabulary, optional static patterns/data, policies Wait/Steal/Timeout, single- and multi-thread mode; one probe window per configured window records every content that window reported; every emitted row restricted to the variables of block k must be a reference-BGP answer of block k over SOME content window k reported so far, and its static part an answer of the static patterns over the static data alone",
+   note="trusted: probe windows and the reference BGP evaluator; the oracle is existential over past firings of the same window, hence sound for every synchronisation policy (it does not decide WHICH content must be used); multi-thread runs only perturb, they do not enumerate schedules; known finding C11-F1 (one shared store for all windows) is excluded through its own signature only",
+   tech="model-based property testing (proptest) with probe windows and a per-block explanation oracle"),
+
  "C08": dict(cat="fault_enumeration",
    text="generated lineage DAGs (<=12 seeds, independent and exclusive groups, monotone and non-monotone) x valid HybridConfigs x deadline expiry injected at EVERY clock reading n<=R through the injectable HybridClock, plus a two-jump sweep, a node-budget sweep and the same sweep on compile_lineage_to_sdd_with_clock; evaluate_topk with ample budgets; an end-to-end part drives Reasoner::infer_new_facts_with_hybrid on acyclic programs; oracle = explicit world enumeration over the harness's own copy of the formula: Exact equals the true probability, every interval contains it, Alert => p>=threshold, NoAlert => p<threshold, compiled WMC exact, never UnsafeApproximation",
    note="trusted: world-enumeration oracle; exclusive group = exactly one member true with probability p_i (sum 1); every referenced seed is in the snapshot; budgets in (0,1h); invalid configurations must yield NeedsExact (from validate()); ~4% of cases with R>2500 are swept at 400 sampled n",
